@@ -8,7 +8,9 @@ import (
 	"io"
 	"math/big"
 	"runtime"
+	"sort"
 	"sync"
+	"time"
 
 	multiproof "github.com/crate-crypto/go-ipa"
 	"github.com/crate-crypto/go-ipa/bandersnatch/fr"
@@ -55,36 +57,105 @@ type proofProg struct {
 
 var gateMu sync.RWMutex
 
-func arrivalOrder(name string, W int) []int {
-	o := make([]int, W)
-	for i := range o {
-		switch name {
-		case "rev":
-			o[i] = W - 1 - i
-		case "rot":
-			o[i] = (i + W/2 + 1) % W
-		default: // evenodd: odd workers first
-			if i < W/2 {
-				o[i] = 2*i + 1
-			} else {
-				o[i] = 2 * (i - W/2)
-			}
+type gateCtl struct {
+	mode     string
+	mu       sync.Mutex
+	waiting  map[int]chan struct{} // batch start -> release channel
+	sentCh   chan int
+	done     chan struct{}
+	observed []int
+	inOrder  bool
+}
+
+func newGateCtl(mode string) *gateCtl {
+	return &gateCtl{mode: mode, waiting: map[int]chan struct{}{}, sentCh: make(chan int, 1024), done: make(chan struct{}), inOrder: true}
+}
+func (g *gateCtl) gate(start, end int) {
+	ch := make(chan struct{})
+	g.mu.Lock()
+	g.waiting[start] = ch
+	g.mu.Unlock()
+	select {
+	case <-ch:
+	case <-g.done:
+	}
+}
+func (g *gateCtl) sent(start, end int) { g.sentCh <- start }
+func (g *gateCtl) stop()               { close(g.done) }
+
+// permutation of the sorted batch starts
+func (g *gateCtl) order(starts []int) []int {
+	sort.Ints(starts)
+	n := len(starts)
+	out := make([]int, 0, n)
+	switch g.mode {
+	case "rev":
+		for i := n - 1; i >= 0; i-- {
+			out = append(out, starts[i])
+		}
+	case "rot":
+		for i := 0; i < n; i++ {
+			out = append(out, starts[(i+n/2+1)%n])
+		}
+	default: // evenodd: odd positions first
+		for i := 1; i < n; i += 2 {
+			out = append(out, starts[i])
+		}
+		for i := 0; i < n; i += 2 {
+			out = append(out, starts[i])
 		}
 	}
-	// repair to a permutation when W is odd (evenodd)
-	seen := make([]bool, W)
-	for i, v := range o {
-		if v >= W || seen[v] {
-			for j := 0; j < W; j++ {
-				if !seen[j] {
-					o[i] = j
-					break
+	return out
+}
+func (g *gateCtl) run() {
+	last, stable := -1, 0
+	for {
+		select {
+		case <-g.done:
+			return
+		case <-time.After(2 * time.Millisecond):
+		}
+		g.mu.Lock()
+		n := len(g.waiting)
+		g.mu.Unlock()
+		if n == 0 {
+			last, stable = -1, 0
+			continue
+		}
+		if n == last {
+			stable++
+		} else {
+			last, stable = n, 0
+		}
+		if stable < 5 && n < runtime.NumCPU() {
+			continue
+		}
+		g.mu.Lock()
+		starts := make([]int, 0, len(g.waiting))
+		for s := range g.waiting {
+			starts = append(starts, s)
+		}
+		g.mu.Unlock()
+		for _, s := range g.order(starts) {
+			g.mu.Lock()
+			ch := g.waiting[s]
+			delete(g.waiting, s)
+			g.mu.Unlock()
+			close(ch)
+			select {
+			case got := <-g.sentCh:
+				g.observed = append(g.observed, got)
+				if got != s {
+					g.inOrder = false
 				}
+			case <-time.After(20 * time.Second):
+				g.inOrder = false
+			case <-g.done:
+				return
 			}
 		}
-		seen[o[i]] = true
+		last, stable = -1, 0
 	}
-	return o
 }
 
 func applyRep(e banderwagon.Element, rep string, p *prg) banderwagon.Element {
@@ -219,38 +290,20 @@ func (d *driver) runMultiproof(w emitter, pid int, pr *proofProg) {
 	ptr := common.NewTranscript(label)
 	var proof *multiproof.MultiProof
 	var err error
-	var observed []int
+	var ctl *gateCtl
 	if pr.Arrival == "" {
 		gateMu.RLock()
 	} else {
-		// force the order in which the grouping workers hand over their results
+		// Force the order in which the grouping workers hand over their results.  The controller makes no
+		// assumption about how the library splits the openings among workers: workers register at the gate and
+		// block; whenever the set of registered workers has been stable for a moment (or is complete), the
+		// controller releases them one at a time in the requested permutation of their batch starts, waiting for
+		// each hand-over to complete.  Workers that register later are handled in the next round.
 		gateMu.Lock()
-		W := runtime.NumCPU()
-		batch := (n + W - 1) / W
-		order := arrivalOrder(pr.Arrival, W)
-		pos := make([]int, W)
-		for k, wkr := range order {
-			pos[wkr] = k
-		}
-		var mu sync.Mutex
-		cond := sync.NewCond(&mu)
-		turn := 0
-		multiproof.VerifGroupGate = func(start, end int) {
-			wkr := start / batch
-			mu.Lock()
-			for pos[wkr] != turn {
-				cond.Wait()
-			}
-			mu.Unlock()
-		}
-		multiproof.VerifGroupSent = func(start, end int) {
-			mu.Lock()
-			observed = append(observed, start/batch)
-			turn++
-			cond.Broadcast()
-			mu.Unlock()
-		}
-		e["arrival_forced"] = order
+		ctl = newGateCtl(pr.Arrival)
+		multiproof.VerifGroupGate = ctl.gate
+		multiproof.VerifGroupSent = ctl.sent
+		go ctl.run()
 	}
 	func() {
 		defer func() {
@@ -263,9 +316,12 @@ func (d *driver) runMultiproof(w emitter, pid int, pr *proofProg) {
 	if pr.Arrival == "" {
 		gateMu.RUnlock()
 	} else {
+		ctl.stop()
 		multiproof.VerifGroupGate, multiproof.VerifGroupSent = nil, nil
 		gateMu.Unlock()
-		e["arrival_observed"] = observed
+		e["arrival_forced"] = pr.Arrival
+		e["arrival_observed"] = ctl.observed
+		e["arrival_ok"] = ctl.inOrder
 	}
 	e["err"] = err != nil
 	e["cs_after"] = elemList(Cs)
@@ -479,6 +535,33 @@ func (d *driver) runMultiproof(w emitter, pid int, pr *proofProg) {
 			} else {
 				pf.D = proof2.D
 			}
+		case "fake":
+			// a proof created for a DIFFERENT polynomial than the one committed to by Cs[i], with the matching claimed value
+			fs2 := append([][]fr.Element(nil), fs...)
+			if pt.To == "zero" {
+				fs2[i] = make([]fr.Element, 256)
+			} else {
+				g := append([]fr.Element(nil), fs[i]...)
+				one := fr.One()
+				g[(int(zs[i])+1)%256].Add(&g[(int(zs[i])+1)%256], &one)
+				if pt.To == "atz" {
+					g[zs[i]].Add(&g[zs[i]], &one)
+				}
+				fs2[i] = g
+			}
+			cs2 := make([]*banderwagon.Element, n)
+			for j := range cs {
+				c := *cs[j]
+				cs2[j] = &c
+			}
+			t2 := common.NewTranscript(label)
+			p2, e2 := multiproof.CreateMultiProof(t2, cfg, cs2, fs2, zs)
+			if e2 != nil {
+				continue
+			}
+			pf = p2
+			y2 := fs2[i][zs[i]]
+			yv[i] = &y2
 		case "none":
 		}
 		verify(k+1, pt, lbl, pf, cs, yv, zv)
